@@ -1050,6 +1050,16 @@ class Oracles:
         w = self.w
         if w.in_user:
             return
+        # C11: a task name of the form '<pool>_Task-<id>' belongs to exactly one live task (spawners, actors and the driver have others)
+        seen: Dict[str, int] = {}
+        for t in asyncio.all_tasks(w.loop):
+            if not t.done():
+                nm = t.get_name()
+                if "_Task-" in nm and w.pool_of_name(nm) is not None:
+                    seen[nm] = seen.get(nm, 0) + 1
+        dup = sorted(n for n, k in seen.items() if k > 1)
+        if dup:
+            w.fail({"C11"}, "name/two-live-tasks-share-a-task-name", dup[0])
         for pm in w.pools:
             pool = pm.pool
             live = len(pm.live_tasks())
